@@ -9,7 +9,7 @@ C14.d variable numbers are compared as numbers
 import ast
 
 from ..core.flow import call_name, calls_in, is_name
-from ..core.loader import AnalysisError, short, own_nodes, norm
+from ..core.loader import AnalysisError, short, own_nodes, norm, canon, function_locals
 from ..core.report import where
 from . import C09
 
@@ -95,14 +95,26 @@ def rule_a(ctx, out):
             out.bad("rebuild:lookup-with-other-key", "the replacement map is not indexed with the computed sub-block name", where(rb))
     # writer index: generate_subblocks counts i from 0 by 1 and passes it as idx to both translators
     gs = ctx.func(f"{GO}.generate_subblocks")
-    init = [n for n in gs.node.body if isinstance(n, ast.Assign) and is_name(n.targets[0], "i") and isinstance(n.value, ast.Constant) and n.value.value == 0]
+    # the sub-block counter is whatever generate_subblocks passes as `idx` to the translators
+    cnames = set()
+    for callee in ("translate_subblock", "translate_last_subblock"):
+        t = ctx.func(f"{GO}.{callee}")
+        if "idx" not in t.params:
+            raise AnalysisError(f"{callee}: idx parameter not found")
+        for c in calls_in(gs.node, callee):
+            if len(c.args) > t.params.index("idx") and isinstance(c.args[t.params.index("idx")], ast.Name):
+                cnames.add(c.args[t.params.index("idx")].id)
+    if len(cnames) != 1:
+        raise AnalysisError(f"generate_subblocks: the translators are not given one counter variable as idx ({sorted(cnames)})")
+    I = cnames.pop()
+    init = [n for n in gs.node.body if isinstance(n, ast.Assign) and is_name(n.targets[0], I) and isinstance(n.value, ast.Constant) and n.value.value == 0]
     loops = [n for n in gs.node.body if isinstance(n, ast.While)]
-    inc = [n for l in loops for n in l.body if isinstance(n, ast.AugAssign) and is_name(n.target, "i") and isinstance(n.op, ast.Add)
+    inc = [n for l in loops for n in l.body if isinstance(n, ast.AugAssign) and is_name(n.target, I) and isinstance(n.op, ast.Add)
            and isinstance(n.value, ast.Constant) and n.value.value == 1]
-    other_writes = [n for n in own_nodes(gs.node) if isinstance(n, (ast.Assign, ast.AugAssign)) and any(is_name(t, "i") for t in (n.targets if isinstance(n, ast.Assign) else [n.target]))
+    other_writes = [n for n in own_nodes(gs.node) if isinstance(n, (ast.Assign, ast.AugAssign)) and any(is_name(t, I) for t in (n.targets if isinstance(n, ast.Assign) else [n.target]))
                     and n not in init and n not in inc]
     if init and len(inc) == 1 and not other_writes and loops and loops[0].body[-1] is inc[0]:
-        out.ok({"writer_index": "i = 0; one `i += 1` as last statement of each iteration"})
+        out.ok({"writer_index": f"{I} = 0; one `{I} += 1` as last statement of each iteration"})
     else:
         out.bad("generate_subblocks:index-not-a-counter", "the sub-block index is not a counter from 0 advanced once per sub-block", where(gs))
     for callee in ("translate_subblock", "translate_last_subblock"):
@@ -112,8 +124,8 @@ def rule_a(ctx, out):
         if pos is None or not cs:
             raise AnalysisError(f"{callee}: idx parameter / call site not found")
         for c in cs:
-            if len(c.args) > pos and is_name(c.args[pos], "i"):
-                out.ok({"call": callee, "idx": "i"})
+            if len(c.args) > pos and is_name(c.args[pos], I):
+                out.ok({"call": callee, "idx": I})
             else:
                 out.bad(f"generate_subblocks:{callee}:index-argument", f"{callee} is not given the sub-block counter as idx", where(gs, c))
         # and hands it on as subblock=idx with the sub-block name
@@ -192,19 +204,26 @@ def rule_e(ctx, out):
             out.bad("split_by_numbers:cut-not-relative-plus-last", f"the recorded cut `{short(arg, 40)}` is not <relative offset> + last", where(f, apps[0]))
             continue
         parts = [arg.left, arg.right]
-        rel = [p for p in parts if not is_name(p, "last")]
+        # the absolute position of the last cut: the variable re-assigned from <cut list>[-1] right after the append
+        lst = norm(apps[0].func.value) if isinstance(apps[0].func, ast.Attribute) else None
+        lasts = {st.targets[0].id for st in stmts if isinstance(st, ast.Assign) and len(st.targets) == 1 and isinstance(st.targets[0], ast.Name)
+                 and isinstance(st.value, ast.Subscript) and norm(st.value.value) == lst and norm(st.value.slice) == "-1"}
+        if len(lasts) != 1:
+            raise AnalysisError("split_by_numbers: the running absolute cut (`last = split_list[-1]`) was not found")
+        last = lasts.pop()
+        rel = [p for p in parts if not is_name(p, last)]
         if len(rel) != 1:
-            out.bad("split_by_numbers:cut-not-relative-plus-last", f"the recorded cut `{short(arg, 40)}` is not <relative offset> + last", where(f, apps[0]))
+            out.bad("split_by_numbers:cut-not-relative-plus-last", f"the recorded cut `{short(arg, 40)}` is not <relative offset> + {last}", where(f, apps[0]))
             continue
         E = norm(rel[0])
         rebases = [st for st in stmts if isinstance(st, ast.Assign) and is_name(st.targets[0], f.params[0])]
         lam = [l for st in rebases for l in ast.walk(st.value) if isinstance(l, ast.Lambda)]
         subs = [l.body for l in lam if isinstance(l.body, ast.BinOp) and isinstance(l.body.op, ast.Sub) and is_name(l.body.left, l.args.args[0].arg)]
         if len(rebases) == 1 and len(subs) == 1 and norm(subs[0].right) == E:
-            out.ok({"function": "split_by_numbers", "cut": f"{E} + last", "remaining_positions_rebased_by": E})
+            out.ok({"function": "split_by_numbers", "cut": f"{E} + {last}", "remaining_positions_rebased_by": E})
         else:
             got = norm(subs[0].right) if subs else "nothing recognisable"
-            out.bad(f"split_by_numbers:rebase-offset-differs:{E}", f"the cut is recorded as {E} + last but the remaining store positions are re-based by {got}",
+            out.bad(f"split_by_numbers:rebase-offset-differs:{canon(E, function_locals(f.node))}", f"the cut is recorded as {E} + {last} but the remaining store positions are re-based by {got}",
                     where(f, rebases[0] if rebases else apps[0]))
     if n < 2:
         raise AnalysisError("split_by_numbers: the two cut branches were not found")
